@@ -213,10 +213,10 @@ C08_Shape == \A x \in Ids : /\ (T[x].wired => T[x].tracked /\ T[x].op # "leaf")
                              /\ (T[x].hasGrad => T[x].tracked)
                              /\ (T[x].op \in CmpOps => ~T[x].tracked /\ ~T[x].spent /\ ~T[x].wired)
 (* C10: values never change; gradients change only during a back-propagation (or are dropped by Reset) *)
-C10_ValuesFrozen == [][\A i \in Ids : T'[i].val = T[i].val]_vars
-C10_GradOnlyInBP == [][\A i \in Ids : T'[i].grad # T[i].grad => (bp.phase = "run" \/ T'[i].grad = <<>>)]_vars
+C10_ValuesFrozen == [][Len(T') >= Len(T) => \A i \in Ids : T'[i].val = T[i].val]_vars
+C10_GradOnlyInBP == [][Len(T') >= Len(T) => \A i \in Ids : T'[i].grad # T[i].grad => (bp.phase = "run" \/ T'[i].grad = <<>>)]_vars
 C10_ScribbleIsInert == [][scr' # scr => T' = T /\ bp' = bp]_vars
-C10_TrackedOnlyByReset == [][\A i \in Ids : T'[i].tracked # T[i].tracked => (bp.phase = "idle" /\ ~T'[i].wired /\ ~T'[i].hasGrad)]_vars
+C10_TrackedOnlyByReset == [][Len(T') >= Len(T) => \A i \in Ids : T'[i].tracked # T[i].tracked => (bp.phase = "idle" /\ ~T'[i].wired /\ ~T'[i].hasGrad)]_vars
 (* every edge is applied exactly once: pending only shrinks during a run *)
 C01_Once == [][bp.phase = "run" /\ bp'.phase = "run" => bp'.pending \subseteq bp.pending /\ Cardinality(bp.pending \ bp'.pending) <= 1]_vars
 
